@@ -18,8 +18,8 @@ type Timer struct {
 }
 
 func (s *Sim) addTimer(d time.Duration, fire func()) *timerEv {
-	if d < 0 {
-		d = 0
+	if d <= 0 {
+		d = 1 // like Sleep: a zero timer still lets a minimal quantum of time pass
 	}
 	s.ntimer++
 	t := &timerEv{at: s.now + d, seq: s.ntimer, fire: fire, owner: s.cur.Name}
